@@ -537,6 +537,9 @@ Proof.
     + rewrite splice_nth_outside by lia. exact Hil.
 Qed.
 
+Lemma cstore_char : forall cs, cstore 3 1 (PBytes cs) = match cs with [b] => inr [b] | _ => inl ETypeError end.
+Proof. reflexivity. Qed.
+
 Lemma excl_arr : forall e n v, excl (TArr e n) v = excl_e e v.
 Proof. intros [vid r|vid ct|r] n v; reflexivity. Qed.
 
@@ -574,7 +577,7 @@ Proof.
     destruct v; try discriminate Ev. cbn [encode_ascii].
     destruct (guard_char_len char_len (Z.of_nat (length cs))); [discriminate|].
     destruct (all_ascii cs) eqn:Ea; cbn [negb] in Ev; [|discriminate].
-    unfold cstore. cbn [fst snd char_ctype Z.leb Z.compare Z.eqb].
+    change (fst char_ctype) with 3. change (snd char_ctype) with 1. rewrite cstore_char.
     destruct cs as [|b0 [|b1 r0]]; cbn [ok_or snd]; try (split; [exact Hb|exact Hinv]).
     split; [apply bytes_splice; [exact Hb|now apply ascii_bytes]|].
     change 1%nat with (length [b0]). rewrite sub_splice_same by (cbn [length]; lia). exact Ea.
@@ -603,3 +606,61 @@ Proof.
       lia. }
     destruct k; destruct v; try discriminate Hp; apply Hset.
 Qed.
+
+(* ------------------------------------------------------------------ *)
+(* the invariant                                                        *)
+
+Definition Inv (leaves : list field) (size : nat) (m : list Z) : Prop :=
+  length m = size /\ bytes m /\
+  (forall g, In g leaves -> leaf_inv (f_ty g) (extent g m) = true) /\
+  (forall j, (j < size)%nat -> covered leaves j = false -> nth j m 0 = 0).
+
+Lemma Inv_reach_inv : forall leaves size m, Inv leaves size m -> reach_inv leaves size m = true.
+Proof.
+  intros leaves size m (Hl & Hb & Hg & Hu). unfold reach_inv.
+  repeat (apply andb_true_iff; split).
+  - now apply Nat.eqb_eq.
+  - now apply all_bytes_iff.
+  - apply forallb_forall. exact Hg.
+  - unfold uncovered_zero. apply forallb_forall. intros j Hj. apply in_seq in Hj.
+    destruct (covered leaves j) eqn:Ec; [reflexivity|]. cbn [orb]. apply Z.eqb_eq. apply Hu; [lia|exact Ec].
+Qed.
+
+Lemma Inv_zero : forall leaves size, layout_ok size leaves = true -> Inv leaves size (repeat 0 size).
+Proof.
+  intros leaves size HL. split; [apply repeat_length|]. split; [|split].
+  - apply Forall_forall. intros x Hx. apply repeat_spec in Hx. lia.
+  - intros g Hg. destruct (layout_in size leaves g HL Hg) as [Hty Hend]. unfold extent.
+    rewrite sub_repeat by exact Hend. now apply leaf_inv_zeros.
+  - intros j _ _. apply nth_repeat.
+Qed.
+
+Lemma Inv_set : forall leaves size m f k v, layout_ok size leaves = true -> Inv leaves size m ->
+  In f leaves -> plain v = true -> excl (f_ty f) v = true -> Inv leaves size (snd (set true f k m v)).
+Proof.
+  intros leaves size m f k v HL (Hl & Hb & Hg & Hu) Hf Hp Hx.
+  destruct (layout_in size leaves f HL Hf) as [Hty Hend].
+  assert (Hwf : wf_field f m) by (unfold wf_field; unfold f_end in Hend; lia).
+  pose proof (set_frame true f k m v (leaf_ty_ftype_ok _ Hty) Hwf) as Hfr.
+  destruct (set_local f k m v Hty ltac:(lia) Hp Hx Hb (Hg f Hf)) as [Hb' Hi'].
+  set (m' := snd (set true f k m v)) in *.
+  split; [destruct Hfr; lia|]. split; [exact Hb'|]. split.
+  - intros g Hin. destruct (layout_pair size leaves f g HL Hf Hin) as [<-|Hd]; [exact Hi'|].
+    destruct (layout_in size leaves g HL Hin) as [_ Hgend]. unfold extent.
+    rewrite (frame_sub _ _ _ _ (f_off g) (fsize (f_ty g)) Hfr); [now apply Hg| |]; unfold f_end in *; lia.
+  - intros j Hj Hc. destruct Hfr as [_ Hout]. rewrite Hout; [now apply Hu|].
+    destruct (Nat.lt_ge_cases j (f_off f)) as [H1|H1]; [now left|].
+    destruct (Nat.lt_ge_cases j (f_end f)) as [H2|H2]; [|right; exact H2].
+    exfalso. assert (Hc' : covered leaves j = true).
+    { unfold covered. apply existsb_exists. exists f. split; [exact Hf|]. lia. }
+    congruence.
+Qed.
+
+Theorem reach_invariant : forall leaves size m,
+  layout_ok size leaves = true -> reach leaves size m -> reach_inv leaves size m = true.
+Proof.
+  intros leaves size m HL Hr. apply Inv_reach_inv. induction Hr.
+  - now apply Inv_zero.
+  - now apply Inv_set.
+Qed.
+
